@@ -14,6 +14,8 @@ limitations under the License.
 package db
 
 import (
+	"bytes"
+
 	"github.com/golang/glog"
 	"github.com/miekg/dns"
 )
@@ -82,7 +84,8 @@ func AdditionalSectionForRecords(r Reader, a *dns.Msg, loc *Location, qclass uin
 				return nil
 			}
 
-			err = r.ForEachResourceRecord(packedName[:offset], loc, parseRecord)
+			// owner keys are stored lower-cased, targets keep the case of the data file
+			err = r.ForEachResourceRecord(bytes.ToLower(packedName[:offset]), loc, parseRecord)
 			if err != nil {
 				glog.Errorf("Failed at parse records %v", err)
 			}
